@@ -193,7 +193,8 @@ def _construct(body_idx, kind, with_site, with_params):
 
 def _outcome(fn):
     try:
-        return fn(), None
+        with sym.concrete():
+            return fn(), None
     except Exception as e:
         return None, e
 
